@@ -32,7 +32,11 @@ import (
 func init() { register("C19", runC19) }
 
 func runC19(c *Ctx) {
-	c19Chains(c)
+	if mqtt.VerifHasErrors {
+		c19Chains(c)
+	} else {
+		c.Note("C19: the white-box wrapper around wrapError / wrapErrorWithRetry does not compile against this tree; the wrapper-chain enumeration is skipped, the errors returned by real clients (parts retry and timeout) are still judged")
+	}
 	c19Retry(c)
 	c19Timeout(c)
 }
